@@ -234,7 +234,9 @@ def configs(tier):
                 add(f"core/fromcp/{shp}/R{R}/w{w}/{how}", fam="fromcp", shape=shp, R=R, w=w, how=how)
     add("core/fromcp_passthrough/J(2, 2)/R2", fam="fromcp_pass", Js=(2, 2), R=2, K=2)
     # ---- SVD compression / decompression: list of (rows, cols) per slice, rank of the PARAFAC2 model fitted to the scores
-    sv = [([(2, 1)], 1, "none"), ([(3, 1), (2, 1)], 1, "none"), ([(2, 2)], 2, "thr"), ([(2, 2), (1, 2)], 1, "none"), ([(2, 1), (1, 1)], 1, "maxrank"), ([(2, 2)], 1, "thr")]
+    sv = [([(2, 1)], 1, "none"), ([(3, 1), (2, 1)], 1, "none"), ([(2, 2)], 2, "thr"), ([(2, 2), (1, 2)], 1, "none"), ([(2, 1), (1, 1)], 1, "maxrank"), ([(2, 2)], 1, "thr"),
+          # first slice short (left uncompressed), a later one tall (compressed): the per-slice decision must not be taken from slice 0
+          ([(1, 1), (2, 1)], 1, "none"), ([(1, 1), (3, 1), (1, 1)], 1, "none")]
     if not q:
         sv += [([(3, 2)], 1, "none"), ([(3, 2)], 2, "none"), ([(3, 2), (2, 2)], 2, "thr"), ([(3, 2)], 2, "maxrank")]
     for sl, R, opt in sv:
